@@ -72,6 +72,7 @@ def check_integrate(L, s, seed=0, method='trapz'):
 
 
 class EditHooks(Hooks):
+    prefix = 'C15'
     def __init__(self):
         self.pre = None
         self.others = None
